@@ -26,7 +26,8 @@ META = dict(
     rule="gross_range_test: every (fail span, suspect span) over {0,1,2,3}^2 x ({None}+{0,1,2,3}^2) (both orders, "
          "degenerate, not-nested ones must raise ValueError), span as list and tuple, x product series of 10 values "
          "(below/on/between/above every bound, NaN) in 3 orders + every series of length<=N; valid_range_test: every "
-         "span over ({None,0,1,2,3})^2 as given x 4 inclusivity settings (+defaults) on the same series, and the "
+         "span over ({None,0,1,2,3})^2 as given x 4 inclusivity settings (+defaults) on the same series, float32/float16 data against non-dyadic limits (flags follow the exact values), 2-D inputs in C / Fortran / "
+         "transposed layout (flags stay with their elements), and the "
          "datetime64 variant (6 instants incl. NaT, spans over {None,t0,t1}^2). Each state = one call of the real "
          "function, judged per point by the scalar reference. non-trivial = reference demands SUSPECT/FAIL/MISSING "
          "or ValueError",
@@ -43,9 +44,12 @@ def series_space(n):
         yield list(x)
 
 
+F32B = (0.1, 0.9, 5.3)
+
+
 def tasks(tier):
     n = NMAX[tier]
-    ts = []
+    ts = [("f32",), ("layout",)]
     for f in itertools.product(B, repeat=2):
         ts.append(("gross", list(f), n))
     for lo in (None,) + B:
@@ -71,6 +75,37 @@ def check_case(case):
                               extra_sig="suspect=" + ("given" if case["suspect"] is not None else "absent"),
                               classify=lambda i: "value")
         return vs, isinstance(acceptable, str) or alpha.is_nontrivial(acceptable), obs, 0
+    if fn == "gross_f32":
+        # float32 data against non-dyadic python-float limits: the flag must follow the exact values
+        x = case["x"]
+        inp = np.array(x, dtype=case["dtype"])
+        exact = [float(v) for v in inp.astype("float64")]
+        kw = {}
+        if case["suspect"] is not None:
+            kw["suspect_span"] = list(case["suspect"])
+        out = alpha.call(qartod.gross_range_test, inp, list(case["fail"]), **kw)
+        acceptable = R.gross_range(exact, case["fail"], case["suspect"])
+        vs, obs = judge_flags(PROP, "gross_range_test", out, acceptable, len(x), extra_sig=f"dtype={case['dtype']}|non-dyadic-bounds", classify=lambda i: "value")
+        return vs, True, obs, 0
+    if fn == "layout":
+        # 2-D input in C order, Fortran order and as a transposed view: flags stay with their elements
+        base = np.array(case["grid"], dtype="float64")
+        arr = {"C": base, "F": np.asfortranarray(base), "T": np.ascontiguousarray(base.T).T}[case["order"]]
+        if case["which"] == "gross":
+            out = alpha.call(qartod.gross_range_test, arr, [0, 3], suspect_span=[1, 2])
+            ref = R.gross_range([float(v) if v == v else None for v in base.reshape(-1)], [0, 3], [1, 2])
+        else:
+            out = alpha.call(axds.valid_range_test, arr, [1, 3])
+            ref = R.valid_range([float(v) if v == v else None for v in base.reshape(-1)], 1, 3)
+        vs = []
+        if isinstance(out, alpha.Raised):
+            vs.append(dict(signature=f"{PROP}|{case['which']}|2d-{case['order']}|symptom=raises:{out.name}", what=f"{case['which']} range test raised {out.name} on a 2-D {case['order']}-ordered array", expected=None, observed=repr(out)))
+            return vs, True, None, 0
+        got = np.ma.getdata(np.asanyarray(out))
+        exp = np.array([next(iter(a)) for a in ref]).reshape(base.shape)
+        if got.shape != base.shape or not np.array_equal(got, exp):
+            vs.append(dict(signature=f"{PROP}|{case['which']}|2d-{case['order']}|symptom=flags-misplaced", what=f"{case['which']} range test on a 2-D {case['order']}-ordered array puts flags on the wrong elements", expected=exp.tolist(), observed=got.tolist()))
+        return vs, True, tuple(got.reshape(-1).tolist()), 0
     if fn == "valid":
         x = case["x"]
         kw = {}
@@ -140,6 +175,31 @@ def run_task(task, acc):
                         for x in (series_space(n) if sc == "list" else PRODUCT[:1]):
                             yield dict(fn="valid", x=x, lo=lo, hi=hi, incl=None if incl is None else list(incl), span_carrier=sc)
 
+        run_cases(acc, gen(), check_case)
+    elif kind == "f32":
+        def gen():
+            vals = []
+            for b in F32B + tuple(-v for v in F32B):
+                for dt_ in ("float32", "float16"):
+                    v = float(np.array(b, dtype=dt_))
+                    vals.append((dt_, v))
+            for dt_ in ("float32", "float16"):
+                xs = [v for d, v in vals if d == dt_] + [0.0, 1.0]
+                for fail in ([-0.9, 5.3], [5.3, -0.9], [0.1, 0.9], [-5.3, -0.1]):
+                    for suspect in (None, [0.1, 0.9], [-0.9, 0.9]):
+                        if suspect is not None and (min(suspect) < min(fail) or max(suspect) > max(fail)):
+                            continue
+                        yield dict(fn="gross_f32", x=xs, dtype=dt_, fail=fail, suspect=suspect)
+                        for v in xs:
+                            yield dict(fn="gross_f32", x=[v], dtype=dt_, fail=fail, suspect=suspect)
+        run_cases(acc, gen(), check_case)
+    elif kind == "layout":
+        def gen():
+            grids = [[[0.0, 5.0, 1.5], [1.0, 2.5, -1.0]], [[float("nan"), 3.0], [4.0, 0.5], [2.0, 1.0]], [[1.0, 2.0, 9.0, 0.0]]]
+            for g in grids:
+                for order in ("C", "F", "T"):
+                    for which in ("gross", "valid"):
+                        yield dict(fn="layout", grid=g, order=order, which=which)
         run_cases(acc, gen(), check_case)
     elif kind == "valid_dt":
         def gen():
